@@ -673,6 +673,13 @@ def layout_programs(cond: Any, cond2: Optional[Any] = None) -> List[Tuple[str, s
     # switch / match dispatch
     out.append(("switch", prog(["txn NumAppArgs", "switch a b", "err", "a:"] + c + ["assert", "int 1", "return", "b:", "int 1", "return"])))
     out.append(("match", prog(["int 3", "int 5", "txn NumAppArgs", "match a b", "err", "a:"] + c + ["assert", "int 1", "return", "b:", "int 1", "return"])))
+    # a switch / match that names the same label twice (one handler, two edges)
+    out.append(("switch-repeated-label", prog(["txn NumAppArgs", "switch a a", "err", "a:"] + c + ["assert", "int 1", "return"])))
+    out.append(("match-repeated-label", prog(["int 3", "int 5", "txn NumAppArgs", "match a a b", "err", "a:"] + c + ["assert", "int 1", "return", "b:", "int 1", "return"])))
+    # approving `return` whose value comes from a constant block the tool cannot resolve (not in the entry block / two blocks / index beyond)
+    out.append(("late-intcblock-return", prog(c + ["assert", "b fin", "fin:", "intcblock 1 0", "intc_0", "return"])))
+    out.append(("two-intcblocks-return", prog(["intcblock 0 1"] + c + ["bz other", "intcblock 1 0", "intc_0", "return", "other:", "intc_1", "return"])))
+    out.append(("late-intcblock-reject", prog(c + ["bz rej", "int 1", "return", "rej:", "intcblock 0 7", "intc_0", "return"])))
     # the same check twice on one path (join of two arms, both checked)
     out.append(("both-arms-check", prog(c2 + ["bz other"] + c + ["assert", "b join", "other:"] + c + ["assert", "join:", "int 1", "return"])))
     out.append(("one-arm-check", prog(c2 + ["bz other"] + c + ["assert", "b join", "other:", "join:", "int 1", "return"])))
